@@ -56,6 +56,13 @@ def pts_of(fam):
     return sorted({p for s in fam for p in s})
 
 
+def falsify_lines(fam, h, rng, top_first=True):
+    """relabel up to three simplices of order > 0 (the highest orders first) to the tokens u10, u11, u12, which are
+    the names '', 0 and () in the pool `falsy` (ordinary names in the other pools)"""
+    hi = sorted((s for s in fam if len(s) > 1), key=lambda s: (-len(s) if top_first else rng.random(), sorted(s)))[:3]
+    return ['relabel %s {%s:%s}' % (h, tokS(s), f) for s, f in zip(hi, rng.sample(['u10', 'u11', 'u12'], 3))]
+
+
 def Lst(toks):
     return '[' + ','.join(toks) + ']'
 
@@ -124,6 +131,16 @@ def c02(tier, seed):
             if thin and rng.random() < 0.5:
                 continue
             yield dict(lines=base + ['!snap c0', 'delsorder c0 %d' % k, '!post-delsorder c0 %d' % k, 'obs c0', '!noalias c0'], pool=pool, tag='C02 delete order %d' % k)
+        # delete a list: a simplex, then a member of its star (already gone when its turn comes), an unknown
+        # name and an unrelated simplex -- in that order, reversed and shuffled
+        srt = sorted(names)
+        for t in (rng.sample(srt, min(2, len(srt))) if thin else srt):
+            star = [x for x in srt if names[t] < names[x]]
+            rest = [x for x in srt if not names[t] <= names[x]]
+            lst = [t] + ([rng.choice(star)] if star else []) + ['u990'] + ([rng.choice(rest)] if rest else [])
+            for variant in (lst, lst[::-1], rng.sample(lst, len(lst))):
+                yield dict(lines=base + ['!snap c0', 'dels c0 ' + Lst(variant), '!post-dels c0 ' + Lst(variant), 'obs c0', '!inv c0'],
+                           pool=pool, tag='C02 deleteSimplices %s' % variant)
         # add by basis: every missing vertex set over the points and one or two new points
         uni = pts + ['u50', 'u51']
         cand = [list(q) for r in range(1, min(len(uni), 4) + 1) for q in itertools.combinations(uni, r)
@@ -167,6 +184,20 @@ def c02(tier, seed):
             other = ['new c1', 'add c1 u200 [] -', 'add c1 u201 [] -', 'addb c1 u202 [u200,u201] -']
             yield dict(lines=base + other + ['!snap c1', 'addfrom c1 c0 ' + rs, '!post-addfrom c1 c0 ' + rs, 'obs c1', 'obs c0'],
                        pool=pool, tag='C02 addSimplicesFrom')
+
+
+    # the same effects on a complex that happens to be a Filtration positioned anywhere (its whole stored complex)
+    for j in range(150 if tier == 'quick' else 2000):
+        g = FiltGen(seed * 7919 + j, POOL_NAMES[j % len(POOL_NAMES)])
+        g.run(rng.randrange(6, 18))
+        for _ in range(2):
+            names = g.alltoks()
+            if not names:
+                break
+            t = rng.choice(names)
+            g.do('setidx f %d' % rng.choice(IDX))
+            g.do('!snap f'); g.do('del f ' + t); g.do('!post-del f ' + t); g.do('obs f')
+        yield g.case('C02 delete in a filtration seed=%d' % (seed * 7919 + j))
 
 
 # ---------------------------------------------------------------------------------------------------------
@@ -216,6 +247,7 @@ def c03(tier, seed):
         L = Live(pool, 'C03 representation-level history seed=%d/%d' % (seed, j))
         L.do('rnew r')
         fresh = 0
+        closed = True       # no simplex has been removed from under its cofaces so far
         for _ in range(rng.randrange(4, 30 if tier == 'quick' else 60)):
             rep = L.ex.reps['r'].representation()
             mo = rep.maxOrder()
@@ -237,8 +269,12 @@ def c03(tier, seed):
             else:
                 # mostly deletions that keep the structure closed (no cofaces), sometimes a raw one
                 free = [t for t in names if not rep.cofaces(L.ex.name(t))]
-                L.do('rdel r %s' % (rng.choice(free) if free and rng.random() < 0.8 else rng.choice(names + ['u997'])))
+                t = rng.choice(free) if free and rng.random() < 0.8 else rng.choice(names + ['u997'])
+                closed = closed and (t in free or t == 'u997')
+                L.do('rdel r ' + t)
             L.do('robs r')
+            if closed:
+                L.do('!rviews r')
         yield L.case()
     for fam in ([frozenset()] + all_complexes(2)):
         yield dict(lines=build_lines(fam, 'c0') + ['!views c0', 'q c0 bop 0', 'q c0 bop 1', 'q c0 bop 2', 'q c0 betti [0]'], pool='int', tag='C03 tiny')
@@ -474,6 +510,9 @@ def homology_queries(L, h='c0', z=True):
             L.do('q %s snf %d' % (h, k))
         L.do('q %s Z %s' % (h, Lst([str(k) for k in range(mo + 2)])))
         L.do('q %s Z' % h)
+        L.do('q %s Z %s' % (h, Lst([str(k) for k in range(mo + 1, -1, -1)])))       # descending: one call, shared state
+        if mo >= 0:
+            L.do('q %s Z %s' % (h, Lst([str(min(1, mo)), str(min(1, mo)), str(mo), str(mo)])))   # repeated orders
         L.do('!snf ' + h)
         L.do('!zbasis ' + h)
 
@@ -772,7 +811,7 @@ def c10(tier, seed):
         if j % 3 == 0 and L.toks('c0'):
             # rejected requests must not disturb later comparisons
             L.do('add c0 %s [] -' % rng.choice(L.toks('c0'))); L.do('add c0 u996 [u997,u998] -')
-        L.do('copy c0 c1'); L.do('!cmp c0 c1'); L.do('q c0 eq c1'); L.do('q c1 le c0'); L.do('q c1 lt c0')
+        L.do('copy c0 c1'); L.do('!equal c0 c1'); L.do('!cmp c0 c1'); L.do('q c0 eq c1'); L.do('q c1 le c0'); L.do('q c1 lt c0')
         names = L.toks('c1')
         kind = j % 5
         if kind == 4:
@@ -809,6 +848,45 @@ def c10(tier, seed):
         yield L.case()
 
 
+    # operands of different classes (a lattice, a filtration at its last index) against plain copies and
+    # snapshots, in both operand orders; copies made into a supplied empty complex
+    def both(L, a, b):
+        L.do('!cmp %s %s' % (a, b)); L.do('!cmp %s %s' % (b, a))
+        for op in ops:
+            L.do('q %s %s %s' % (a, op, b)); L.do('q %s %s %s' % (b, op, a))
+    for j in range(120 if tier == 'quick' else 1500):
+        pool = POOL_NAMES[j % len(POOL_NAMES)]
+        kind = j % 3
+        if kind == 0:
+            L = Live('int', 'C10 lattice against its copy %d/%d' % (seed, j))
+            L.do('lattice c0 %d %d' % (rng.randrange(1, 4), rng.randrange(1, 4)))
+            L.do('copy c0 c1'); L.do('!equal c0 c1'); both(L, 'c0', 'c1')
+            L.do('new c2'); L.do('copyinto c0 c2'); L.do('!equal c0 c2'); both(L, 'c0', 'c2'); both(L, 'c1', 'c2')
+            names = L.toks('c1')
+            if names and j % 2:
+                L.do('del c1 ' + rng.choice(names))
+            else:
+                L.do('add c1 u950 [] -')
+            both(L, 'c0', 'c1')
+        elif kind == 1:
+            g = FiltGen(seed * 3571 + j, pool)
+            g.tag = 'C10 filtration against its snapshot %d/%d' % (seed, j)
+            g.run(rng.randrange(4, 16))
+            g.do('maxidx f'); g.do('snap f s'); g.do('!equal f s'); both(g, 'f', 's')
+            g.do('fcopy f c ' + Lst(g.copy_order())); g.do('maxidx c'); g.do('!equal f c'); both(g, 'f', 'c')
+            names = [g.ex.T(x) for x in B.simplices(g.ex.objs['s'])]
+            if names:
+                g.do('del s ' + rng.choice(names)); both(g, 'f', 's')
+            L = g
+        else:
+            L = Live(pool, 'C10 copy into a supplied empty complex %d/%d' % (seed, j))
+            L.many(build_lines(rng.choice(f4), 'c0', attrs=(j % 2 == 0)))
+            L.do('new c1'); L.do('copyinto c0 c1'); L.do('!equal c0 c1'); both(L, 'c0', 'c1')
+            L.do('new c2'); L.do('add c2 u960 [] -'); L.do('del c2 u960'); L.do('copyinto c0 c2'); L.do('!equal c0 c2'); both(L, 'c0', 'c2')   # emptied by deletion
+            L.do('new c3'); L.do('new c4'); L.do('copyinto c3 c4'); both(L, 'c3', 'c4'); both(L, 'c0', 'c4')
+        yield L.case()
+
+
 # ---------------------------------------------------------------------------------------------------------
 # C11 / C12
 # ---------------------------------------------------------------------------------------------------------
@@ -820,7 +898,9 @@ def c11(tier, seed):
     for i, fam in enumerate(fams):
         pool = POOL_NAMES[i % len(POOL_NAMES)]
         lines = build_lines(fam, 'c0', ['faces', 'basis'][i % 2], attrs=(i % 4 == 0))
-        lines += ['!snap c0', 'flag c0 f', '!flag c0 f', '!same c0', 'obs f', 'alias', '!noshare c0 f', 'flag f g', 'obs g', '!samefam f g',
+        if pool == 'falsy' and ['faces', 'basis'][i % 2] == 'faces':
+            lines += falsify_lines(fam, 'c0', rng, top_first=(i % 3 != 0))      # existing higher simplices called '', 0, ()
+        lines += ['!snap c0', 'flag c0 f', '!lastok flagComplex_of_a_valid_complex', '!flag c0 f', '!same c0', 'obs f', 'alias', '!noshare c0 f', 'flag f g', '!lastok flagComplex_of_a_flag_complex', 'obs g', '!samefam f g',
                   'add f - [] -', '!same c0']
         yield dict(lines=lines, pool=pool, tag='C11 flag of %s' % (sorted(map(sorted, fam)),))
     for n in (5, 6):
@@ -855,14 +935,14 @@ def c11(tier, seed):
             new, rest = rest[:m], rest[m:]
             toks = []
             for (a, b) in new:
-                r = L.do('addb f - [u%d,u%d] -' % (a, b))
-                toks.append(r.split()[1])
+                L.do('addb f - [u%d,u%d] -' % (a, b))
+                toks.append('u%d+u%d' % (a, b))      # edges are handed over by their end points (see `growb`)
             added += new
             if len(toks) >= 2 and rng.random() < 0.5:
                 for tk in toks:                      # the same edges handed over in separate calls
-                    L.do('grow f ' + Lst([tk]))
+                    L.do('growb f ' + Lst([tk])); L.do('!lastok growFlagComplex_with_an_edge_just_added')
             else:
-                L.do('grow f ' + Lst(toks))
+                L.do('growb f ' + Lst(toks)); L.do('!lastok growFlagComplex_with_the_edges_just_added')
             L.do('obs f')
             # rebuild from scratch
             L.do('new s')
@@ -1017,15 +1097,14 @@ class FiltGen(Live):
 
     def copy_order(self):
         f = self.F()
-        if not f.indices():
-            return None
         out = []
         for i in f.indices():
             out += [self.ex.T(s) for s in f.simplicesAddedAtIndex(i)]
         return out
 
-    def case(self, tag):
-        self.tag = tag
+    def case(self, tag=None):
+        if tag is not None:
+            self.tag = tag
         return super().case()
 
 
@@ -1139,6 +1218,25 @@ def c15(tier, seed):
             L.do('!post-addfrom c1 c0 ' + rs)
         L.do('!same c0'); L.do('obs c1')
         yield L.case()
+        # the source's own names permuted (a rotation, a swap) or shifted onto each other, into a target that has
+        # none of them: the source is not relabelled, so old names of the source may serve as new names
+        if len(names) >= 2:
+            k = rng.randrange(1, len(names))
+            rot = {t: names[(j + k) % len(names)] for j, t in enumerate(names)}
+            a, b = rng.sample(names, 2)
+            for ren in (rot, {a: b, b: a}, {t: names[j + 1] if j + 1 < len(names) else 'u470' for j, t in enumerate(names)}):
+                rs = '{' + ','.join('%s:%s' % kv for kv in ren.items()) + '}'
+                L = Live(pool, 'C15 addSimplicesFrom permuting the source names %s' % rs)
+                L.many(base); L.do('new c1')
+                if rng.random() < 0.5:
+                    L.many(['add c1 u200 [] -', 'add c1 u201 [] -', 'addb c1 u202 [u200,u201] -'])
+                L.do('!snap c1 c0')
+                res = L.do('addfrom c1 c0 ' + rs)
+                L.do('!lastok a_bulk_add_under_an_injective_renaming_onto_names_unused_in_the_target')
+                if res.startswith('ok'):
+                    L.do('!post-addfrom c1 c0 ' + rs)
+                L.do('!same c0'); L.do('obs c1')
+                yield L.case()
     # known finding: chains and swaps (injective, avoiding the names that stay) are rejected
     yield dict(lines=['!relabel-chain-known', 'new c0', 'add c0 u1 [] -', 'add c0 u2 [] -', 'addb c0 u3 [u1,u2] -', 'relabel c0 {u1:u2,u2:u9}', 'obs c0'],
                pool='int', tag='C15 KNOWN chain witness')
@@ -1165,9 +1263,21 @@ def c16(tier, seed):
             cand = [x for x in n0 if x not in n1]
             if cand:
                 L.do('relabel c1 {%s:%s}' % (t, rng.choice(cand)))
-        for t in n1[:3]:
+        hi1 = [t for t in L.toks('c1') if B.orderOf(L.ex.objs['c1'], L.ex.name(t)) > 0]
+        for t in n1[:3] + rng.sample(hi1, min(2, len(hi1))):
             if t in L.toks('c1'):
                 L.do('dset c1 %s %d %d' % (t, rng.randrange(3), rng.randrange(5, 9)))
+                if rng.random() < 0.5:
+                    L.do('dset c1 %s %d %d' % (t, rng.choice([-1, -1, -2]), rng.randrange(5, 9)))   # the integer keys 0 and 1, set last
+        if pool == 'falsy':
+            # higher simplices of the receiver called '', 0 and (): in the argument too (compatible) or not (a shared
+            # basis under two names)
+            hi0 = [t for t in L.toks('c0') if B.orderOf(L.ex.objs['c0'], L.ex.name(t)) > 0]
+            hi0.sort(key=lambda t: -B.orderOf(L.ex.objs['c0'], L.ex.name(t)))
+            for t, f in zip(hi0[:3] if i % 2 else rng.sample(hi0, min(3, len(hi0))), rng.sample(['u10', 'u11', 'u12'], 3)):
+                L.do('relabel c0 {%s:%s}' % (t, f))
+                if t in L.toks('c1') and rng.random() < 0.6:
+                    L.do('relabel c1 {%s:%s}' % (t, f))
         if i % 7 == 0 and n0:
             # the receiver has answered basis lookups and has then been relabelled (consistently with the argument)
             c0 = L.ex.objs['c0']
@@ -1315,6 +1425,25 @@ def c19(tier, seed):
         L.do('relabel c1 {%s}' % ','.join('%s:u%d' % (t, 800 + k) for k, t in enumerate(L.toks('c1'))))
         L.do('compose c0 c1 c2'); L.do('q c2 integrate 7 %d' % dflt); L.do('!integrate c2 7 %d' % dflt)
         L.do('!additive c0 c1 c2 7 %d' % dflt)
+        # ask, change the complex, ask again: delete (homology changes), re-add, other heights on the same names
+        for _ in range(rng.randrange(1, 4)):
+            names = L.toks('c0')
+            if not names:
+                break
+            L.do('q c0 betti'); L.do('q c0 euler'); L.do('q c0 snf %d' % rng.randrange(0, 3))
+            t = rng.choice(names)
+            kind = rng.randrange(3)
+            if kind == 0:
+                L.do('del c0 ' + t)
+            elif kind == 1:
+                pts = L.toks('c0', 0)
+                L.do('restrict c0 ' + Lst(rng.sample(pts, rng.randrange(1, len(pts) + 1))))
+            else:
+                pts = L.toks('c0', 0)
+                for p in rng.sample(pts, min(2, len(pts))):
+                    L.do('dset c0 %s 7 %d' % (p, rng.randrange(0, 6)))
+            L.do('q c0 betti'); L.do('q c0 euler'); L.do('q c0 counts'); L.do('!betti c0')
+            L.do('q c0 integrate 7 %d' % dflt); L.do('!integrate c0 7 %d' % dflt)
         yield L.case()
     yield dict(lines=['new c0', '!integrate c0 7 0', 'q c0 integrate 7 0', 'q c0 euler'], pool='int', tag='C19 empty complex')
 
